@@ -3,6 +3,7 @@ import Rbdl.Alg.QuatFrom
 import Rbdl.GenUse
 import Rbdl.Gen.Spatial
 import Rbdl.Gen.Quat
+import Rbdl.LinAlg
 /-
   `alg <op> args` of the line protocol: header-level operations on explicit arguments (C16).
 -/
@@ -122,6 +123,12 @@ def spec (op : String) (a : List Q) : Option String :=
   -- fromMatrix (toMatrix p) is a unit quaternion with the same matrix (= ±p), for every unit p
   | "qroundtrip" => some (showL ((1 : Q) :: m3L (quat a 0).toMatrix))
   | "qmul" => none
+  -- the Gauss solver returns THE solution of `A x = b` (independent exact solve, not the code-shaped
+  -- elimination above); `none` for singular input
+  | "gauss" =>
+    let n := (a.getD 0 0).num.toNat
+    let A : LMat Q := (List.range n).map (fun r => (List.range n).map (fun c => a.getD (1 + r * n + c) 0))
+    (lmSolve A ((List.range n).map (fun r => a.getD (1 + n * n + r) 0))).map showL
   -- composition: the compact product is the 6x6 matrix product (theorem C16.mul_toMatrix), also when
   -- the right operand of the in-place form is the same object
   | "mul" | "mulAssign" => some (showL (xtL (xt a 0 * xt a 12)))
